@@ -23,6 +23,26 @@ def body_eq(a: Any, b: Any) -> bool:
     return repr(a) == repr(b) and a.to_knx() == b.to_knx()
 
 
+def changed_fields(a: Any, b: Any) -> str:
+    """Names of the attributes that differ (part of the signature, so that one known defect does not hide another)."""
+    names = []
+    da, db = getattr(a, "__dict__", None), getattr(b, "__dict__", None)
+    if da is None or db is None:
+        return "?"
+    for k in sorted(set(da) | set(db)):
+        va, vb = da.get(k), db.get(k)
+        try:
+            same = va == vb or repr(va) == repr(vb)
+        except Exception:  # noqa: BLE001
+            same = repr(va) == repr(vb)
+        if not same:
+            if isinstance(va, (bytes, bytearray)) and isinstance(vb, (bytes, bytearray)) and len(vb) == len(va) + 1 and vb[: len(va)] == va and vb[-1] == 0:
+                names.append(f"{k}(zero-padded)")
+            else:
+                names.append(k)
+    return "+".join(names) or "?"
+
+
 def check_one(body: Any) -> tuple[str, list[tuple[str, str]]]:
     name = type(body).__name__
     try:
@@ -44,7 +64,7 @@ def check_one(body: Any) -> tuple[str, list[tuple[str, str]]]:
     if rest:
         viols.append((f"rest-not-empty:{name}", f"{raw.hex()} leaves {rest.hex()}"))
     if not body_eq(back.body, body):
-        viols.append((f"body-changed:{name}", f"{body!r} -> {raw.hex()} -> {back.body!r}"))
+        viols.append((f"body-changed:{name}:{changed_fields(body, back.body)}", f"{body!r} -> {raw.hex()} -> {back.body!r}"))
     elif back.to_knx() != raw:
         viols.append((f"reserialisation-differs:{name}", f"{raw.hex()} -> {back.to_knx().hex()}"))
     return "ok" if not viols else "bad", viols
